@@ -124,3 +124,52 @@ def handler_raises(h: ast.ExceptHandler) -> List[Optional[str]]:
         return False
 
     return out if block(h.body) else []
+
+
+def accepted_values(ctx, g: CFG, module, var: str, use: Node, extra_points=()):
+    """Which integer values of `var` can reach `use`?  Every dominating test that touches `var` only through comparisons
+    with constants is piecewise constant between those constants, so evaluating the conjunction of the dominating
+    branch conditions at each constant and its neighbours decides it for all integers (finite set of orderings).
+    Returns (sorted sample points, accepted sample points, tests used)."""
+    from .consteval import UNKNOWN
+
+    conds = []
+    for t in g.nodes:
+        if t.kind != "test" or t.ast is None:
+            continue
+        names = {n.id for n in walk(t.ast) if isinstance(n, ast.Name)}
+        if var not in names or any(isinstance(x, (ast.Call, ast.Subscript, ast.Attribute)) and not _const_like(ctx, x, module) for x in walk(t.ast)):
+            continue
+        for br in (True, False):
+            if g.branch_dominates(t, br, use):
+                conds.append((t, br))
+    consts = set(extra_points)
+    for t, _ in conds:
+        for x in walk(t.ast):
+            v = ctx.folder.eval(x, module) if isinstance(x, (ast.Constant, ast.Attribute, ast.Name)) and not (isinstance(x, ast.Name) and x.id == var) else None
+            if isinstance(v, int) and not isinstance(v, bool):
+                consts.add(v)
+    points = sorted({c + d for c in consts | {0} for d in (-1, 0, 1)})
+    accepted = []
+    for v in points:
+        ok = True
+        for t, br in conds:
+            r = ctx.folder.eval(t.ast, module, env={var: v})
+            if r is UNKNOWN:
+                ok = None
+                break
+            if bool(r) != br:
+                ok = False
+                break
+        if ok:
+            accepted.append(v)
+        if ok is None:
+            return points, None, conds
+    return points, accepted, conds
+
+
+def _const_like(ctx, x, module):
+    from .consteval import UNKNOWN
+
+    v = ctx.folder.eval(x, module)
+    return v is not UNKNOWN
